@@ -526,6 +526,25 @@ func (p *Peer) Modify(sess *CPSession, m *ModSpec) ModResult {
 	if res.Cause == ie.CauseRequestAccepted {
 		res.Accepted = true
 		sess.ApplyMod(m)
+		// what the UP function chose for PDRs created by this request
+		for _, cp := range resp.CreatedPDR {
+			id, err := cp.PDRID()
+			if err != nil {
+				continue
+			}
+			spec := sess.PDR(id)
+			if spec == nil {
+				continue
+			}
+			kids, _ := cp.CreatedPDR()
+			for _, k := range kids {
+				if k.Type == ie.FTEID {
+					if f, err := k.FTEID(); err == nil {
+						spec.GotTEID = f.TEID
+					}
+				}
+			}
+		}
 	}
 	return res
 }
